@@ -13,6 +13,7 @@ import (
 	"flag"
 	"fmt"
 	"os"
+	"runtime"
 	"sort"
 	"strings"
 	"sync/atomic"
@@ -61,7 +62,11 @@ func (g *Gen) Case(op, args, key string, f func() string) {
 	if g.Sync {
 		fmt.Fprintf(os.Stderr, "PENDING\t%s\t%s\n", op, args)
 	}
+	guardReset()
 	obs := try(f)
+	if !guardsIntact() {
+		obs = "[P,-7777777]" // the callee wrote beyond the length of an argument slice (into its spare capacity)
+	}
 	atomic.StoreInt64(&g.started, 0)
 	g.out.WriteString(op)
 	g.out.WriteByte('\t')
@@ -87,9 +92,17 @@ func (g *Gen) rerunSample() {
 		j := g.R.Intn(i + 1)
 		s[i], s[j] = s[j], s[i]
 	}
-	for _, c := range s {
+	// the shuffled re-run also varies GOMAXPROCS (3, 33, 97, then the default again): code that splits work by the number
+	// of procs (chunk sizes, worker counts clamped after the fact) behaves differently for values nobody tests with
+	def := runtime.GOMAXPROCS(0)
+	procs := []int{3, 33, 97, def}
+	for i, c := range s {
+		if i%((len(s)+3)/4+1) == 0 {
+			runtime.GOMAXPROCS(procs[(i/((len(s)+3)/4+1))%4])
+		}
 		g.Do(c[0], c[1], "")
 	}
+	runtime.GOMAXPROCS(def)
 	g.Stats["rerun-shuffled"] = len(s)
 	g.rerunPairs()
 }
